@@ -15,6 +15,9 @@
 (*   [t |-> "n", n |-> Int, d |-> Nat]   the value n / 2^d, normalised     *)
 (*   [t |-> "z", n |-> 0,  d |-> 0]      negative zero                     *)
 (*   [t |-> "o", n |-> 0,  d |-> 0]      opaque                            *)
+(*   [t |-> "nan" | "pinf" | "ninf", n |-> 0, d |-> 0]                     *)
+(*                                       the IEEE special values, with     *)
+(*                                       their exact IEEE / C99 rules      *)
 (***************************************************************************)
 EXTENDS Integers, Sequences, Bytes
 
@@ -43,10 +46,18 @@ NInt(i) == IF Abs(i) > NMAX THEN Opaque ELSE [t |-> "n", n |-> i, d |-> 0]
 NZero == [t |-> "n", n |-> 0, d |-> 0]
 NOne == [t |-> "n", n |-> 1, d |-> 0]
 
+NaN == [t |-> "nan", n |-> 0, d |-> 0]
+PInf == [t |-> "pinf", n |-> 0, d |-> 0]
+NInf == [t |-> "ninf", n |-> 0, d |-> 0]
+Inf(neg) == IF neg THEN NInf ELSE PInf
+
 IsOpaque(x) == x.t = "o"
 IsExact(x) == x.t # "o"
+IsNaN(x) == x.t = "nan"
+IsInf(x) == x.t \in {"pinf", "ninf"}
+IsFin(x) == x.t \in {"n", "z"}                           \* a finite value the model knows exactly
 IsZero(x) == x.t = "z" \/ (x.t = "n" /\ x.n = 0)
-IsNeg(x) == x.t = "z" \/ (x.t = "n" /\ x.n < 0)          \* sign bit
+IsNeg(x) == x.t = "z" \/ x.t = "ninf" \/ (x.t = "n" /\ x.n < 0)          \* sign bit (a NaN's sign is never observable)
 IsInt(x) == x.t = "n" /\ x.d = 0
 
 \* Normalising constructor: n / 2^d.
@@ -62,17 +73,26 @@ CanShift(n, k) == k <= 30 /\ Abs(n) <= NMAX \div P2Tab[k]
 
 NNeg(x) ==
     IF x.t = "o" THEN Opaque
+    ELSE IF x.t = "nan" THEN NaN
+    ELSE IF x.t = "pinf" THEN NInf
+    ELSE IF x.t = "ninf" THEN PInf
     ELSE IF x.t = "z" THEN NZero
     ELSE IF x.n = 0 THEN NegZero
     ELSE [x EXCEPT !.n = 0 - x.n]
 
 NAbs(x) ==
     IF x.t = "o" THEN Opaque
+    ELSE IF x.t = "nan" THEN NaN
+    ELSE IF IsInf(x) THEN PInf
     ELSE IF x.t = "z" THEN NZero
     ELSE [x EXCEPT !.n = Abs(x.n)]
 
 NAdd(x, y) ==
-    IF x.t = "o" \/ y.t = "o" THEN Opaque
+    IF x.t = "nan" \/ y.t = "nan" THEN NaN             \* NaN + anything, whatever the opaque operand is
+    ELSE IF x.t = "o" \/ y.t = "o" THEN Opaque
+    ELSE IF IsInf(x) /\ IsInf(y) THEN (IF x.t = y.t THEN x ELSE NaN)
+    ELSE IF IsInf(x) THEN x
+    ELSE IF IsInf(y) THEN y
     ELSE IF IsZero(x) /\ IsZero(y) THEN (IF x.t = "z" /\ y.t = "z" THEN NegZero ELSE NZero)
     ELSE IF IsZero(x) THEN y
     ELSE IF IsZero(y) THEN x
@@ -85,7 +105,9 @@ NAdd(x, y) ==
 NSub(x, y) == NAdd(x, NNeg(y))
 
 NMul(x, y) ==
-    IF x.t = "o" \/ y.t = "o" THEN Opaque
+    IF x.t = "nan" \/ y.t = "nan" THEN NaN
+    ELSE IF x.t = "o" \/ y.t = "o" THEN Opaque
+    ELSE IF IsInf(x) \/ IsInf(y) THEN (IF IsZero(x) \/ IsZero(y) THEN NaN ELSE Inf(IsNeg(x) # IsNeg(y)))
     ELSE IF IsZero(x) \/ IsZero(y) THEN (IF IsNeg(x) # IsNeg(y) THEN NegZero ELSE NZero)
     ELSE IF Abs(x.n) > NMAX \div Abs(y.n) THEN Opaque
     ELSE Mk(x.n * y.n, x.d + y.d)
@@ -97,8 +119,11 @@ OddPart(m) == m \div P2Tab[Val2(m)]
 
 \* Division.  Result record [e |-> "" | "divzero", v |-> Num].
 NDiv(x, y) ==
-    IF y.t # "o" /\ IsZero(y) THEN [e |-> "divzero", v |-> NZero]
+    IF y.t # "o" /\ IsZero(y) THEN [e |-> "divzero", v |-> NZero]     \* the divisor is tested first, whatever the dividend
+    ELSE IF x.t = "nan" \/ y.t = "nan" THEN [e |-> "", v |-> NaN]
     ELSE IF x.t = "o" \/ y.t = "o" THEN [e |-> "", v |-> Opaque]
+    ELSE IF IsInf(x) THEN [e |-> "", v |-> IF IsInf(y) THEN NaN ELSE Inf(IsNeg(x) # IsNeg(y))]
+    ELSE IF IsInf(y) THEN [e |-> "", v |-> IF IsNeg(x) # IsNeg(y) THEN NegZero ELSE NZero]
     ELSE IF IsZero(x) THEN [e |-> "", v |-> IF IsNeg(x) # IsNeg(y) THEN NegZero ELSE NZero]
     ELSE LET ay == Abs(y.n)
              k  == Val2(ay)
@@ -115,7 +140,7 @@ NDiv(x, y) ==
                       ELSE [e |-> "", v |-> Mk(sg * q, 0 - ex)]
 
 NFloor(x) ==
-    IF x.t # "n" THEN x                       \* floor(-0) = -0, opaque stays opaque
+    IF x.t # "n" THEN x                       \* floor(-0) = -0; NaN, infinities and opaque stay what they are
     ELSE IF x.d = 0 THEN x
     ELSE LET f == x.n \div P2Tab[x.d]         \* TLC \div floors
          IN  IF f = 0 /\ x.n < 0 THEN NegZero  \* cannot happen: floor of negative fraction is <= -1
@@ -124,8 +149,14 @@ NFloor(x) ==
 \* `f64 as i64` / `as u64` truncation toward zero, for exact values only.
 NTrunc(x) == IF x.t # "n" THEN 0 ELSE Sgn(x.n) * (Abs(x.n) \div P2Tab[x.d])
 
-\* Three-way comparison of exact values: -1, 0, 1.
+\* Comparison of known values: -1, 0, 1, or 2 = unordered (a NaN operand).
 NCmp(x, y) ==
+    IF x.t = "nan" \/ y.t = "nan" THEN 2
+    ELSE IF IsInf(x) \/ IsInf(y)
+    THEN LET cx == IF x.t = "pinf" THEN 1 ELSE IF x.t = "ninf" THEN 0 - 1 ELSE 0
+             cy == IF y.t = "pinf" THEN 1 ELSE IF y.t = "ninf" THEN 0 - 1 ELSE 0
+         IN  IF cx < cy THEN 0 - 1 ELSE IF cx > cy THEN 1 ELSE 0
+    ELSE
     LET xi == IF x.t = "n" THEN x.n \div P2Tab[x.d] ELSE 0
         yi == IF y.t = "n" THEN y.n \div P2Tab[y.d] ELSE 0
         xf == IF x.t = "n" THEN (x.n % P2Tab[x.d]) * P2Tab[DMAX - x.d] ELSE 0
@@ -135,19 +166,47 @@ NCmp(x, y) ==
 
 NEq(x, y) == NCmp(x, y) = 0
 
-\* powf.  Exact for non-negative integer exponents while the product fits,
-\* and for negative integer exponents when the reciprocal is dyadic.
+\* powf (C99 / IEEE pow).  Exact for small integer exponents while the
+\* product fits and the reciprocal is dyadic; the special cases of Annex F
+\* (zero, one, infinities, NaN, negative base with a fractional exponent)
+\* exactly; certain overflow / underflow (|x| >= 2 or <= 1/2 with an integer
+\* exponent beyond 1100) as infinity / zero.
 RECURSIVE NPowNat(_, _)
 NPowNat(x, k) == IF k = 0 THEN NOne ELSE NMul(NPowNat(x, k - 1), x)
 
+IsOddInt(y) == y.t = "n" /\ y.d = 0 /\ y.n % 2 = 1
+AbsCmp1(x) == IF Abs(x.n) < P2Tab[x.d] THEN 0 - 1 ELSE IF Abs(x.n) > P2Tab[x.d] THEN 1 ELSE 0     \* |x| against 1, x finite non-zero
+SignedZero(neg) == IF neg THEN NegZero ELSE NZero
+
 NPow(x, y) ==
-    IF y.t # "o" /\ IsZero(y) THEN NOne           \* powf(anything, 0) = 1
-    ELSE IF x.t # "n" \/ y.t # "n" THEN Opaque
-    ELSE IF x.n = 1 /\ x.d = 0 THEN NOne           \* powf(1, anything) = 1
-    ELSE IF y.d # 0 \/ Abs(y.n) > 64 THEN Opaque
-    ELSE IF x.n = 0 THEN (IF y.n > 0 THEN NZero ELSE Opaque)
-    ELSE IF y.n > 0 THEN NPowNat(x, y.n)
-    ELSE LET p == NPowNat(x, 0 - y.n) IN NDiv(NOne, p).v
+    IF y.t # "o" /\ IsZero(y) THEN NOne                       \* pow(anything, +-0) = 1, even NaN
+    ELSE IF x.t = "n" /\ x.n = 1 /\ x.d = 0 THEN NOne          \* pow(1, anything) = 1, even NaN
+    ELSE IF x.t = "nan" \/ y.t = "nan" THEN NaN
+    ELSE IF x.t = "o" \/ y.t = "o" THEN Opaque
+    ELSE IF IsInf(y) THEN
+        (IF IsZero(x) THEN (IF y.t = "pinf" THEN NZero ELSE PInf)
+         ELSE IF IsInf(x) THEN (IF y.t = "pinf" THEN PInf ELSE NZero)
+         ELSE LET c == AbsCmp1(x)
+              IN  IF c = 0 THEN NOne                               \* pow(-1, +-inf) = 1
+                  ELSE IF (c > 0) = (y.t = "pinf") THEN PInf ELSE NZero)
+    ELSE \* y is finite and non-zero: y.t = "n"
+    IF x.t = "pinf" THEN (IF y.n > 0 THEN PInf ELSE NZero)
+    ELSE IF x.t = "ninf" THEN (IF y.n > 0 THEN Inf(IsOddInt(y)) ELSE SignedZero(IsOddInt(y)))
+    ELSE IF IsZero(x) THEN
+        (LET neg == IsNeg(x) /\ IsOddInt(y)
+         IN  IF y.n > 0 THEN SignedZero(neg) ELSE Inf(neg))
+    ELSE \* x is finite, non-zero, not 1
+    IF x.n < 0 /\ y.d # 0 THEN NaN                                \* negative base, fractional exponent
+    ELSE IF y.d # 0 THEN Opaque
+    ELSE IF Abs(y.n) <= 64 THEN
+        (IF y.n > 0 THEN NPowNat(x, y.n)
+         ELSE LET p == NPowNat(x, 0 - y.n) IN NDiv(NOne, p).v)
+    ELSE LET c == AbsCmp1(x)
+             neg == x.n < 0 /\ IsOddInt(y)
+         IN  IF c = 0 THEN (IF neg THEN NInt(0 - 1) ELSE NOne)     \* x = -1
+             ELSE IF (Abs(x.n) >= 2 * P2Tab[x.d] \/ 2 * Abs(x.n) <= P2Tab[x.d]) /\ Abs(y.n) >= 1100
+                  THEN (IF (c > 0) = (y.n > 0) THEN Inf(neg) ELSE SignedZero(neg))
+             ELSE Opaque
 
 (***************************************************************************)
 (* Decimal text -> number.                                                 *)
@@ -205,11 +264,18 @@ StripTrailingZeros(s) == IF s # <<>> /\ s[Len(s)] = 48 THEN StripTrailingZeros(S
 RECURSIVE DigitsToNat(_)      \* at most 9 digits
 DigitsToNat(s) == IF s = <<>> THEN 0 ELSE DigitsToNat(SubSeq(s, 1, Len(s) - 1)) * 10 + (s[Len(s)] - 48)
 
+\* 2^1024 - 2^970: the least real that rounds to infinity (ties to even).
+F64Limit == B("179769313486231580793728971405303415079934132710037826936173778980444968292764750946649017977587207096330286416692887910946555547851940402630657488671505820681908902000708383676273854845817711531764475730270069855571366959622842914819860834936475292719074168444365510704342711559699508093042880177904174497792")
+RECURSIVE DigitsGE(_, _)
+DigitsGE(a, b) == \* equal-length digit strings: a >= b
+    IF a = <<>> THEN TRUE ELSE IF a[1] > b[1] THEN TRUE ELSE IF a[1] < b[1] THEN FALSE ELSE DigitsGE(Tail(a), Tail(b))
+Zeros(k) == [i \in 1..k |-> 48]
+
 \* Value of a syntactically valid numeral.
 F64Value(s) ==
     LET p == F64Parse(s)
     IN  IF ~p.ok THEN Opaque
-        ELSE IF p.special THEN Opaque
+        ELSE IF p.special THEN (IF Lower(s[Len(s)]) = 110 /\ Lower(s[Len(s) - 1]) = 97 THEN NaN ELSE Inf(p.neg))     \* "..an" is nan; inf / infinity
         ELSE
         LET fpz == StripTrailingZeros(p.fp)
             digs == StripLeadingZeros(p.ip \o fpz)          \* significant digits D
@@ -217,7 +283,12 @@ F64Value(s) ==
             exmag == IF Len(exd) > 3 THEN 1000 ELSE DigitsToNat(exd)
             ex == IF p.exn THEN 0 - exmag ELSE exmag
             scale == ex - Len(fpz)                           \* value = D * 10^scale
+            mag == Len(digs) + scale                         \* 10^(mag-1) <= |value| < 10^mag
         IN  IF digs = <<>> THEN (IF p.neg THEN NegZero ELSE NZero)
+            ELSE IF Len(exd) > 3 /\ Len(digs) > 500 THEN Opaque
+            ELSE IF mag > 309 THEN Inf(p.neg)                \* >= 10^309: rounds to infinity
+            ELSE IF mag < 0 - 330 THEN (IF p.neg THEN NegZero ELSE NZero)     \* < 10^-330: rounds to zero
+            ELSE IF mag = 309 /\ DigitsGE(IF scale >= 0 THEN digs \o Zeros(scale) ELSE SubSeq(digs, 1, 309), F64Limit) THEN Inf(p.neg)
             ELSE IF Len(digs) > 9 THEN Opaque
             ELSE LET D == DigitsToNat(digs)
                      sg == IF p.neg THEN 0 - 1 ELSE 1
@@ -240,6 +311,9 @@ PadLeft(s, w) == IF Len(s) >= w THEN s ELSE PadLeft(<<48>> \o s, w)
 
 NPrint(x) ==
     IF x.t = "o" THEN [ok |-> FALSE, s |-> <<>>]
+    ELSE IF x.t = "nan" THEN [ok |-> TRUE, s |-> B("NaN")]
+    ELSE IF x.t = "pinf" THEN [ok |-> TRUE, s |-> B("inf")]
+    ELSE IF x.t = "ninf" THEN [ok |-> TRUE, s |-> B("-inf")]
     ELSE IF x.t = "z" THEN [ok |-> TRUE, s |-> B("-0")]
     ELSE IF x.d = 0 THEN [ok |-> TRUE, s |-> (IF x.n < 0 THEN <<45>> ELSE <<>>) \o NatDigits(Abs(x.n))]
     ELSE IF x.d > 13 \/ Abs(x.n) % P2Tab[x.d] > IMAX \div P5Tab[x.d] THEN [ok |-> FALSE, s |-> <<>>]
